@@ -113,7 +113,7 @@ class Sym:
         self.xtruth = truth
         self.cap = cap
         self._tok = {}
-        self._pc = {}
+        self._produced = {}
         self.states = {}
         self._explore()
 
@@ -262,7 +262,7 @@ class Sym:
 
     def _fit(self, text, astnode, name):
         if len(text) > 700:
-            return self.token("big", astnode, name.replace(".", "_").replace("[", "_").replace("]", "_").replace("'", "").replace('"', "")[:20])
+            return self.token("big", astnode, "".join(ch if ch.isalnum() else "_" for ch in name)[:20])
         return text
 
     def _bind(self, env, key, text, astnode):
@@ -272,7 +272,16 @@ class Sym:
         if key.isidentifier():
             for k in [k for k in env if k.startswith(key + ".") or k.startswith(key + "[")]:
                 del env[k]
-        env[key] = self._fit(text, astnode, key)
+        text = self._fit(text, astnode, key)
+        # a value that keeps wrapping what the same statement produced before (a loop folding into one variable) is
+        # replaced by one opaque token, so that the exploration converges
+        prod = self._produced.setdefault((id(astnode), key), [])
+        if text not in prod:
+            if len(prod) >= 3 and any(pv in text for pv in prod):
+                text = self.token("big", astnode, "".join(ch if ch.isalnum() else "_" for ch in key)[:20])
+            if text not in prod:
+                prod.append(text)
+        env[key] = text
 
     def _assign_target(self, env, env_in, t, vtext, astnode):
         if isinstance(t, (ast.Tuple, ast.List)):
@@ -560,18 +569,107 @@ def possible_values(fa, expr, at, _depth=0):
             else:
                 return [expr]
         return out or [expr]
-    if isinstance(expr, ast.Subscript) and isinstance(expr.value, ast.Dict):
-        return list(expr.value.values)
-    if isinstance(expr, ast.Call) and A.call_attr(expr) == "get" and isinstance(A.call_recv(expr), ast.Dict):
-        return list(A.call_recv(expr).values) + list(expr.args[1:2])
+    # a look-up in a literal table (possibly bound to a local or module-level name): any of its values
+    tab, extra = None, []
+    if isinstance(expr, ast.Subscript):
+        tab = expr.value
+    elif isinstance(expr, ast.Call) and A.call_attr(expr) == "get" and A.call_recv(expr) is not None and 1 <= len(expr.args) <= 2:
+        tab, extra = A.call_recv(expr), list(expr.args[1:2])
+    if tab is not None:
+        ent = table_entries(fa, tab, at)
+        if ent:
+            return [v for (_k, v) in ent] + extra
     return [expr]
 
 
 # calls that can raise inside exception reconstruction, with the exception they signal
 MAY_RAISE = {
     "import_module": ("ImportError", "ModuleNotFoundError", "Exception"),
+    "__import__": ("ImportError", "ModuleNotFoundError", "Exception"),
     "getattr": ("AttributeError", "Exception"),
 }
+
+
+def _literal_seq(fa, it, at):
+    """Elements of a literal tuple / list / set (possibly bound to a local or a module-level name), else None."""
+    if isinstance(it, ast.Name):
+        if fa.df.is_local(it.id):
+            ds = fa.df.reaching(at, it.id)
+            if len(ds) == 1 and ds[0].kind == "assign" and ds[0].value is not None:
+                return _literal_seq(fa, ds[0].value, ds[0].node)
+            return None
+        v = fa.fi.module.assigns.get(it.id)
+        return _literal_seq(fa, v, at) if v is not None else None
+    if isinstance(it, (ast.Tuple, ast.List, ast.Set)):
+        return list(it.elts)
+    return None
+
+
+def table_entries(fa, expr, at, _depth=0):
+    """(key, value) pairs of a dictionary-building expression: a literal (with ** parts), a comprehension over a
+    literal sequence, dict.fromkeys, `a | b`, a local / module-level name bound to one of these.  None if not understood."""
+    if _depth > 6 or expr is None:
+        return None
+    if isinstance(expr, ast.Dict):
+        out = []
+        for k, v in zip(expr.keys, expr.values):
+            if k is None:
+                sub = table_entries(fa, v, at, _depth + 1)
+                if sub is None:
+                    return None
+                out += sub
+            else:
+                out.append((k, v))
+        return out
+    if isinstance(expr, ast.DictComp) and len(expr.generators) == 1 and not expr.generators[0].ifs:
+        g = expr.generators[0]
+        seq = _literal_seq(fa, g.iter, at)
+        if seq is not None and isinstance(g.target, ast.Name) and isinstance(expr.key, ast.Name) and expr.key.id == g.target.id \
+                and g.target.id not in A.names_in(expr.value):
+            return [(e, expr.value) for e in seq]
+        return None
+    if isinstance(expr, ast.Call) and A.call_dotted(expr) == "dict.fromkeys" and len(expr.args) == 2:
+        seq = _literal_seq(fa, expr.args[0], at)
+        return [(e, expr.args[1]) for e in seq] if seq is not None else None
+    if isinstance(expr, ast.Call) and A.call_dotted(expr) == "dict" and len(expr.args) == 1 and not expr.keywords:
+        return table_entries(fa, expr.args[0], at, _depth + 1)
+    if isinstance(expr, ast.BinOp) and isinstance(expr.op, ast.BitOr):
+        l, r = table_entries(fa, expr.left, at, _depth + 1), table_entries(fa, expr.right, at, _depth + 1)
+        return None if l is None or r is None else l + r
+    if isinstance(expr, ast.Name):
+        if fa.df.is_local(expr.id):
+            ds = [d for d in fa.df.reaching(at, expr.id)]
+            if len(ds) == 1 and ds[0].kind == "assign" and ds[0].value is not None:
+                return table_entries(fa, ds[0].value, ds[0].node, _depth + 1)
+            return None
+        v = fa.fi.module.assigns.get(expr.id)
+        return table_entries(fa, v, at, _depth + 1) if v is not None else None
+    return None
+
+
+def strategy_table(fa):
+    """{ResultType member: strategy class name} as DefaultCodec.__init__ builds it, however the dictionary is
+    spelled: literals, comprehensions, `d[k] = v` (also in a loop over a literal sequence), `d.update(...)`."""
+    pairs = []
+    for n in A.walk_body(fa.node):
+        ids = fa.nodes(n) if isinstance(n, (ast.expr, ast.stmt)) else []
+        if not ids:
+            continue
+        if isinstance(n, (ast.Dict, ast.DictComp)) or (isinstance(n, ast.Call) and A.call_dotted(n) == "dict.fromkeys"):
+            ent = table_entries(fa, n, ids[0])
+            if ent:
+                pairs += [(k, v, ids[0]) for (k, v) in ent]
+        elif isinstance(n, ast.Assign) and len(n.targets) == 1 and isinstance(n.targets[0], ast.Subscript):
+            pairs.append((n.targets[0].slice, n.value, ids[0]))
+    table = {}
+    for (k, v, at) in pairs:
+        for kv in possible_values(fa, k, at):
+            dk = A.dotted(kv)
+            if not (dk and dk.startswith("ResultType.")):
+                continue
+            ve = fa.expand(v, at)
+            table[dk.split(".")[1]] = A.call_attr(ve) if isinstance(ve, ast.Call) else None
+    return table
 
 
 def check_exhaustive(ck, R):
@@ -590,13 +688,8 @@ def check_exhaustive(ck, R):
     rt = ck.repo.cls("metadata.ResultType")
     members = [t.id for st in rt.node.body if isinstance(st, ast.Assign) for t in st.targets if isinstance(t, ast.Name)]
     dc = FA(ck, "storage_base.DefaultCodec.__init__")
-    dicts = [n for n in A.walk_body(dc.node) if isinstance(n, ast.Dict)]
-    keys = set()
-    for d in dicts:
-        for k in d.keys:
-            dk = A.dotted(k)
-            if dk and dk.startswith("ResultType."):
-                keys.add(dk.split(".")[1])
+    kinds = strategy_table(dc)
+    keys = set(kinds)
     miss = returned - keys
     ck.ob(R, fo.key(None, "classified-has-strategy"), not miss and bool(returned),
           "%d result types classified, all have a storage strategy" % len(returned) if not miss else
@@ -609,12 +702,6 @@ def check_exhaustive(ck, R):
     ck.ob(R, fo.key(None, "members-classified"), not unreturned, "every return-type member is produced by from_object" if not unreturned else
           "from_object never produces %s" % sorted(unreturned), fo.where())
     # strategy kinds: exception -> JSON exception strategy, null -> null strategy, partition -> partition strategy
-    kinds = {}
-    for d in dicts:
-        for k, v in zip(d.keys, d.values):
-            dk = A.dotted(k)
-            if dk and isinstance(v, ast.Call):
-                kinds[dk.split(".")[1]] = A.call_attr(v)
     want = {"exception": "JsonExceptionStrategy", "null": "NullStrategy", "partition": "PicklePartitionStrategy"}
     bad = {k: kinds.get(k) for k, w in want.items() if kinds.get(k) != w}
     ck.ob(R, dc.key(None, "special-strategies"), not bad, "exception/null/partition use their dedicated strategies" if not bad else
@@ -887,7 +974,7 @@ def check_replay(ck, R):
     def not_exception(lits):
         for (tx, p) in lits:
             e = None if tx.startswith("@") else _parse(tx)
-            if isinstance(e, ast.Compare) and isinstance(e.ops[0], ast.Eq) and not p:
+            if isinstance(e, ast.Compare) and isinstance(e.ops[0], (ast.Eq, ast.Is)) and not p:  # enum members: == and `is` agree
                 sides = [A.norm(e.left), A.norm(e.comparators[0])]
                 if "ResultType.exception" in sides and any(x.endswith(".invocation_metadata.result_type") and x.startswith("existing_memento") for x in sides):
                     return True
@@ -917,6 +1004,31 @@ def check_replay(ck, R):
           "to_exception no longer imports the module that defines the recorded exception class (e.g. it only consults sys.modules): in a "
           "process that has not loaded that module the replay raises MementoException instead of the recorded class", tx.where())
     ck.need(len(risky) >= 2, "to_exception: expected getattr / constructor call")
+    TS = Sym(tx)
+    falls_off = {s_ for (s_, l_) in tx.cfg.pred[tx.cfg.exit] if not isinstance(tx.cfg.node(s_).ast, ast.Return)}
+    mod_consts = tx.fi.module.assigns
+
+    def handler_types(h):
+        if h.type is None:
+            return ["BaseException"]
+        t = h.type
+        if isinstance(t, ast.Name) and isinstance(mod_consts.get(t.id), ast.Tuple):
+            t = mod_consts[t.id]  # a module-level tuple of exception classes
+        return [A.norm(x) for x in (t.elts if isinstance(t, ast.Tuple) else [t])]
+
+    def returns_self(h):
+        """Once in the handler, the function can only end by returning self: no raise inside the handler, no falling
+        off the end, and every return reached on a path through the handler yields `self` in the symbolic store."""
+        hn = [n_.id for n_ in tx.cfg.nodes if n_.kind == "except" and n_.ast is h]
+        if not hn:
+            return False
+        after = tx.cfg.reach(hn)
+        if any(isinstance(x, ast.Raise) and set(tx.nodes(x)) & after for x in A.walk_local(h)) or falls_off & after:
+            return False
+        mark = TS.handler_mark(h)
+        vals = [v for (_r, _env, lits, v) in TS.return_states() if mark in lits]
+        return bool(vals) and all(v == "self" for v in vals)
+
     for (c, exc_names, what) in risky:
         covered = False
         n = c
@@ -924,14 +1036,11 @@ def check_replay(ck, R):
             p = tx.pm.get(n)
             if isinstance(p, ast.Try) and any(tx.inside(c, b) for b in p.body):
                 for h in p.handlers:
-                    hts = [A.norm(t) for t in (h.type.elts if isinstance(h.type, ast.Tuple) else [h.type])] if h.type is not None else ["BaseException"]
-                    if set(hts) & set(exc_names) | ({"x"} if "ImportError" in hts and "ModuleNotFoundError" in exc_names else set()):
-                        # once in the handler, the function can only end by returning self
-                        hn = [n_.id for n_ in tx.cfg.nodes if n_.kind == "except" and n_.ast is h]
-                        after = tx.cfg.reach(hn)
-                        rets = [r for r in tx.returns() if set(tx.nodes(r)) & after]
-                        if hn and rets and tx.cfg.raise_exit not in after and all(r.value is not None and tx.xnorm(r.value) == "self" for r in rets):
+                    hts = handler_types(h)
+                    if (set(hts) & (set(exc_names) | {"BaseException"})) or ("ImportError" in hts and "ModuleNotFoundError" in exc_names):
+                        if returns_self(h):
                             covered = True
+                        break  # the first matching handler is the one that runs
             n = p
         ck.ob(R, tx.key(c, "total"), covered, "%s is covered by a handler that returns self" % what if covered else
               "%s can raise %s out of to_exception: replaying a memoized exception whose class cannot be located "
